@@ -61,6 +61,65 @@ func collectElems(body []byte) ([]annElem, error) {
 	return out, nil
 }
 
+// modelElem: the line-protocol token of an element for the Lean model
+func modelElem(e annElem) string {
+	tags := "~"
+	if len(e.Tags) > 0 {
+		tags = strings.Join(e.Tags, ";")
+	}
+	rels := "~"
+	if len(e.Rels) > 0 {
+		var rs []string
+		for _, r := range e.Rels {
+			rs = append(rs, fmt.Sprintf("%s>%d,%d,%d", r.Rel, r.To[0], r.To[1], r.To[2]))
+		}
+		rels = strings.Join(rs, ";")
+	}
+	return fmt.Sprintf("%d,%d,%d/%s/%s/%s/%s", e.Pos[0], e.Pos[1], e.Pos[2], e.Kind, tags, e.Prop["n"], rels)
+}
+
+// modelCanon: elements in the model's canonical output form
+func modelCanon(es []annElem, withRels bool) string {
+	if len(es) == 0 {
+		return "-"
+	}
+	var out []string
+	for _, e := range es {
+		tags := append([]string(nil), e.Tags...)
+		sort.Strings(tags)
+		var rels []string
+		if withRels {
+			for _, r := range e.Rels {
+				rels = append(rels, fmt.Sprintf("%s>%d,%d,%d", r.Rel, r.To[0], r.To[1], r.To[2]))
+			}
+			sort.Strings(rels)
+		}
+		out = append(out, fmt.Sprintf("(%d,%d,%d)%s[%s]%s[%s]", e.Pos[0], e.Pos[1], e.Pos[2], e.Kind, strings.Join(tags, ","), e.Prop["n"], strings.Join(rels, ",")))
+	}
+	sort.Strings(out)
+	return strings.Join(out, ";")
+}
+
+// cmpModelViews: the server's all-elements and tag answers against the Lean model's state (X)
+func cmpModelViews(c *Ctx, uuid, inst string, hist func() string) {
+	get := func(path string) ([]annElem, bool) {
+		r := Get("node/" + uuid + "/" + inst + "/" + path)
+		if !r.OK() {
+			return nil, false
+		}
+		es, err := collectElems(r.Body)
+		return es, err == nil
+	}
+	if es, ok := get("all-elements"); ok {
+		c.Cmp("C13-all-elements", "ann.all after\n"+hist(), "ok "+modelCanon(es, true), c.Model.Ask("ann.all"))
+	}
+	for _, t := range annTags {
+		if es, ok := get("tag/" + t); ok {
+			c.Cmp("C13-tag", "ann.tag "+t+" after\n"+hist(), "ok "+modelCanon(es, false), c.Model.Ask("ann.tag "+t))
+		}
+	}
+}
+
 type annView struct {
 	c    *Ctx
 	uuid string
@@ -281,6 +340,7 @@ func runC13(c *Ctx) {
 			r := c.Rng.Fork()
 			root := NewRepo()
 			NewInstance(root, "annotation", "pts", nil)
+			c.Model.Ask("ann.reset")
 			const bs = 64
 			set := map[[3]int32]annElem{}
 			var hl []string
@@ -343,6 +403,11 @@ func runC13(c *Ctx) {
 					rr := Post("node/"+root+"/pts/elements", body)
 					hl = append(hl, fmt.Sprintf("POST elements %s -> %d", string(body), rr.Code))
 					if rr.OK() {
+						var toks []string
+						for _, e := range els {
+							toks = append(toks, modelElem(e))
+						}
+						c.Model.Ask("ann.store " + strings.Join(toks, "+"))
 						for _, e := range els {
 							// an overwritten element's old mutual references are the client's to fix: drop dangling ones from the oracle
 							set[e.Pos] = e
@@ -372,6 +437,7 @@ func runC13(c *Ctx) {
 					rr := Delete(fmt.Sprintf("node/%s/pts/element/%d_%d_%d", root, p[0], p[1], p[2]))
 					hl = append(hl, fmt.Sprintf("DELETE element %v -> %d", p, rr.Code))
 					if rr.OK() {
+						c.Model.Ask(fmt.Sprintf("ann.delete %d,%d,%d", p[0], p[1], p[2]))
 						old := set[p]
 						delete(set, p)
 						// the deleted element's partners lose their reference to it
@@ -408,6 +474,7 @@ func runC13(c *Ctx) {
 					rr := Post(fmt.Sprintf("node/%s/pts/move/%d_%d_%d/%d_%d_%d", root, p[0], p[1], p[2], to[0], to[1], to[2]), nil)
 					hl = append(hl, fmt.Sprintf("POST move %v -> %v : %d", p, to, rr.Code))
 					if rr.OK() {
+						c.Model.Ask(fmt.Sprintf("ann.move %d,%d,%d %d,%d,%d", p[0], p[1], p[2], to[0], to[1], to[2]))
 						e := set[p]
 						delete(set, p)
 						e.Pos = to
@@ -438,6 +505,7 @@ func runC13(c *Ctx) {
 					e.Rels = keep
 					set[q] = e
 				}
+				cmpModelViews(c, root, "pts", hist)
 				if i%6 == 5 {
 					checkAnnViewsLoose(c, r, root, "pts", set, bs, hist)
 				}
